@@ -54,13 +54,15 @@ pub struct Args<'g> {
     pub forced_rt: Option<u32>,          // result type to use (a declared 64-bit type for *_bit64)
     pub forced_lits: Vec<u32>,           // values the next lit32() calls return
     pub forced_words: Option<Vec<u32>>,  // what the next words() call returns (variadic id lists)
+    pub forced_ids: Vec<u32>,            // values the next word() calls return
+    pub ow_64: bool,                     // (operand, id) pairs carry 64-bit literals
     last_enum: Option<(String, u32)>,
     omitted: bool,   // an optional argument was omitted: "optional ones only as a trailing run"
 }
 impl<'g> Args<'g> {
     pub fn new(g: &'g Gram, seed: u64) -> Args<'g> {
         Args { g, rng: Rng::new(seed), counter: 5000, flat: vec![], rt: None, explicit_rid: None, rid_used: false,
-               ip: json!(["End"]), index: None, forced_rt: None, forced_lits: vec![], forced_words: None, last_enum: None, omitted: false }
+               ip: json!(["End"]), index: None, forced_rt: None, forced_lits: vec![], forced_words: None, forced_ids: vec![], ow_64: false, last_enum: None, omitted: false }
     }
     pub fn reset(&mut self) {
         self.flat.clear(); self.rt = None; self.rid_used = false; self.last_enum = None; self.omitted = false;
@@ -68,7 +70,7 @@ impl<'g> Args<'g> {
     fn fresh(&mut self) -> u32 { self.counter += 1; self.counter }
     pub fn flat_w(&mut self, w: u32) { self.flat.push(json!({"w": jw(w)})); }
     pub fn flat_words(&mut self, ws: &[u32]) { for w in ws { self.flat_w(*w); } }
-    pub fn word(&mut self) -> u32 { let v = self.fresh(); self.flat_w(v); v }
+    pub fn word(&mut self) -> u32 { let v = if self.forced_ids.is_empty() { self.fresh() } else { self.forced_ids.remove(0) }; self.flat_w(v); v }
     fn omit(&mut self) -> bool { if self.omitted || self.rng.chance(1, 5) { self.omitted = true; } self.omitted }
     pub fn opt_word(&mut self) -> Option<u32> { if !self.omit() { Some(self.word()) } else { None } }
     pub fn rt(&mut self) -> u32 { let v = match self.forced_rt.take() { Some(t) => t, None => self.fresh() }; self.rt = Some(v); v }
@@ -99,7 +101,8 @@ impl<'g> Args<'g> {
     pub fn pairs_ww(&mut self) -> Vec<(u32, u32)> { (0..self.count(3)).map(|_| (self.word(), self.word())).collect() }
     pub fn pairs_wl(&mut self) -> Vec<(u32, u32)> { (0..self.count(3)).map(|_| (self.word(), self.lit32())).collect() }
     pub fn pairs_ow(&mut self) -> Vec<(dr::Operand, u32)> {
-        (0..self.count(3)).map(|_| (dr::Operand::LiteralBit32(self.lit32()), self.word())).collect()
+        let n = if self.ow_64 { 1 + self.rng.below(3) } else { self.count(3) };
+        (0..n).map(|_| if self.ow_64 { (dr::Operand::LiteralBit64(self.lit64()), self.word()) } else { (dr::Operand::LiteralBit32(self.lit32()), self.word()) }).collect()
     }
     pub fn id_operands(&mut self) -> Vec<dr::Operand> { (0..self.count(4)).map(|_| dr::Operand::IdRef(self.word())).collect() }
     pub fn insert_point(&mut self) -> InsertPoint {
@@ -267,6 +270,33 @@ fn suite_methods(g: &Gram, out: &mut Out, seed: u64, table: &Value) {
     }
 }
 
+/// C06: multi-step histories whose round trip depends on the parser's type tracker: an OpSwitch over a
+/// 64-bit selector that is a function parameter / undef / constant / arithmetic result
+fn suite_switch64(g: &Gram, out: &mut Out, seed: u64) {
+    for (k, how) in ["function_parameter", "undef", "constant_null", "i_add", "constant_bit64"].iter().enumerate() {
+        let mut s = new_session(g, out, "new", seed + k as u64);
+        s.a.forced_lits = vec![64, (k % 2) as u32];
+        let t = unw(&logged_call(&mut s, out, "type_int", true)["res"][1]);
+        let mut sel = 0;
+        if *how == "constant_null" || *how == "constant_bit64" {
+            s.a.forced_rt = Some(t);
+            if *how == "constant_bit64" { s.a.forced_rt = None; }
+            let ev = if *how == "constant_bit64" { logged_call(&mut s, out, "constant_bit64", true) } else { logged_call(&mut s, out, how, true) };
+            sel = unw(&ev["res"][1]);
+        }
+        logged_call(&mut s, out, "begin_function", true);
+        if *how == "function_parameter" { s.a.forced_rt = Some(t); sel = unw(&logged_call(&mut s, out, how, true)["res"][1]); }
+        logged_call(&mut s, out, "begin_block", true);
+        if *how == "undef" || *how == "i_add" { s.a.forced_rt = Some(t); sel = unw(&logged_call(&mut s, out, how, true)["res"][1]); }
+        s.a.forced_ids = vec![sel];
+        s.a.ow_64 = true;
+        logged_call(&mut s, out, "switch", true);
+        s.a.ow_64 = false;
+        logged_call(&mut s, out, "end_function", true);
+        finish_event(s, out, Some((1, 5)));
+    }
+}
+
 /// abstract call of MC_Builder -> concrete method
 fn concrete_of(abs: &str, rng: &mut Rng, terms: &[&str], blocks: &[&str], globals: &[&str]) -> String {
     match abs {
@@ -385,24 +415,27 @@ fn suite_ids(g: &Gram, out: &mut Out, seed: u64, table: &Value) {
             finish_event(s, out, None);
         } else if matches!(kind, "block" | "insert_block" | "term" | "insert_term") {
             // fail first (no block selected), with and without an explicit result id; ids handed out afterwards must still be fresh
-            let mut s = new_session(g, out, "new", seed + k);
-            logged_call(&mut s, out, "id", true);
-            if k % 2 == 0 {
-                let id = s.b.id();
-                out.ev(json!({"ev": "bcall", "m": "id", "rt": [], "rid_explicit": [], "rid_param": false, "ip": ["End"], "idx": [], "flat": [], "res": ["Ok", jw(id)],
-                              "selF": j_sel(s.b.selected_function()), "selB": j_sel(s.b.selected_block()), "module": [j_module(s.b.module_ref())]}));
-                s.a.explicit_rid = Some(id);
+            for explicit in [false, true] {
+                let mut s = new_session(g, out, "new", seed + k);
+                logged_call(&mut s, out, "id", true);
+                if explicit {
+                    let id = s.b.id();
+                    out.ev(json!({"ev": "bcall", "m": "id", "rt": [], "rid_explicit": [], "rid_param": false, "ip": ["End"], "idx": [], "flat": [], "res": ["Ok", jw(id)],
+                                  "selF": j_sel(s.b.selected_function()), "selB": j_sel(s.b.selected_block()), "module": [j_module(s.b.module_ref())]}));
+                    s.a.explicit_rid = Some(id);
+                }
+                logged_call(&mut s, out, name, true);
+                s.a.explicit_rid = None;
+                logged_call(&mut s, out, "id", true);
+                if explicit && k % 3 != 0 { finish_event(s, out, None); continue; }
+                logged_call(&mut s, out, "begin_function", true);
+                logged_call(&mut s, out, "begin_block", true);
+                logged_call(&mut s, out, name, true);
+                logged_call(&mut s, out, "id", true);
+                if s.b.selected_block().is_some() { logged_call(&mut s, out, "ret", true); }
+                logged_call(&mut s, out, "end_function", true);
+                finish_event(s, out, None);
             }
-            logged_call(&mut s, out, name, true);
-            s.a.explicit_rid = None;
-            logged_call(&mut s, out, "id", true);
-            logged_call(&mut s, out, "begin_function", true);
-            logged_call(&mut s, out, "begin_block", true);
-            logged_call(&mut s, out, name, true);
-            logged_call(&mut s, out, "id", true);
-            if s.b.selected_block().is_some() { logged_call(&mut s, out, "ret", true); }
-            logged_call(&mut s, out, "end_function", true);
-            finish_event(s, out, None);
         }
     }
     // variable-arity type requests whose operand lists are prefixes / extensions of one another
@@ -427,7 +460,7 @@ pub fn drive(args: &[String]) {
     let seed = arg_num(args, "--seed", 1);
     let mut histories = 0;
     match arg(args, "--suite").unwrap_or("methods") {
-        "methods" => { suite_methods(&g, &mut out, seed, &table); }
+        "methods" => { suite_methods(&g, &mut out, seed, &table); suite_switch64(&g, &mut out, seed); }
         "ids" => { suite_ids(&g, &mut out, seed, &table); }
         "histories" => {
             let f = std::io::BufReader::new(std::fs::File::open(arg(args, "--histories").expect("--histories")).unwrap());
